@@ -96,6 +96,8 @@ def run(tier, replay):
     results += explore(ck, tier, ["plain"], [], "c07w", cfg="MCHistory_window.cfg", ops=(False,), budget=200 if tier == "thorough" else 40)
     # one mode (0nu4b), the three nuclides that have it: whatever the mode's code keeps is keyed on the nuclide as well
     results += explore(ck, tier, ["plain"], [], "c07f", cfg="MCHistory_four.cfg", ops=(False,), budget=200 if tier == "thorough" else 30)
+    # the modes with a per-event majorant scan of the second lepton (5, 13, 8): a stale table bin of the previous event
+    results += explore(ck, tier, ["plain"], [], "c07s", cfg="MCHistory_scan.cfg", ops=(False,), budget=200 if tier == "thorough" else 30)
     exhaustive = True
     for rr in results:
         if rr.get("crash"):
